@@ -12,6 +12,8 @@ IMPORTS = ("From Coq Require Import List Ascii String NArith ZArith Bool.\n"
 THEOREMS = ["ipinfos_end_to_end", "no_ipinfos_nothing_configured", "annotation_scanned", "enc_no_semicolon",
             "enc_no_outer_space", "ipinfos_key_no_equals", "json_print_parse", "decode_encode"]
 REFUTED = []
+# what Bind writes for the CNI plugin (Props/C13p.v, proofs in Proofs/PluginAnswerP.v)
+PLUGIN_THEOREMS = ["bind_annotation_is_what_ipam_holds", "bind_infos_match_ips"]
 DEPS = ["Strs", "Nets", "NetsP", "Keys", "KeysP", "Page", "PageP", "IpInfoCodec", "IpInfoCodecP", "CorrBase", "C13c", "C13"]
 
 KNOWN_FINDINGS = []
@@ -26,7 +28,7 @@ MANIFEST = {
             "prefix length, gateway and VLAN in order; supporting theorems annotation_scanned, enc_no_semicolon, "
             "enc_no_outer_space, ipinfos_key_no_equals, json_print_parse, decode_encode, no_ipinfos_nothing_configured. Tied to "
             "the code end to end: real encoder, real annotation, real galaxy argument passing (verif hook 7fed6f0) and a plugin "
-            "binary that decodes with tkestack.io/galaxy/cni/ipam, compared with the model on generated pools and IP lists.",
+            "binary that decodes with tkestack.io/galaxy/cni/ipam, compared with the model on generated pools and IP lists. galaxy-ipam's side (Props/C13p.v, Proofs/PluginAnswerP.v): bind_annotation_is_what_ipam_holds - a successful Bind writes max(1, number of range lists) IPs, each allocated under the pod's key for its UID; bind_infos_match_ips - one ipinfo per IP, carrying mask, gateway and vlan of a loaded pool that contains it.",
     "note": "trusted: Coq kernel (no axioms); encoding/json is modelled only for the shapes galaxy produces (ASCII, the IPInfo and "
             "CniArgs structs); the CNI exec protocol (env/stdin) is exercised by the harness, not modelled",
 }
@@ -367,6 +369,10 @@ def run(ctx):
         infos = gen_infos(rng, ctx) if rng.random() > 0.05 else []
         c = {"op": "e2e", "infos": infos, "rr": gen_rr(rng), "kubelet": rng.choice(KUBELET), "nets": rng.choice([1, 1, 2, 3, 4])}
         ctx.dist("e2e:nets-%d" % c["nets"])
+        if rng.random() < 0.4:
+            # every second network's configuration names a third-party ipam plugin too (the fallback for pods without ipinfos)
+            c["ipam_section"] = True
+            ctx.dist("e2e:netconf-with-ipam-section")
         if rng.random() < 0.2:
             c = {"op": "e2e", "annotation": gen_annotation_text(rng, infos or gen_infos(rng, ctx), ctx), "kubelet": rng.choice(KUBELET),
                  "nets": rng.choice([1, 2, 3])}
@@ -398,7 +404,7 @@ def run(ctx):
     daemon_phase(ctx, rng, 40 if ctx.quick else 400)
     # galaxy-ipam's side of the hand-over: the annotation Bind writes (real FloatingIPPlugin vs Model/Plugin.v, regression and
     # incarnation scenarios incl. a second Bind of the same incarnation after a failed pods/binding call)
-    plugincheck.run(ctx, "C13", [], [], mon_c13_bind, nrandom=(40, 400), per_config=(1, 2), all_steps=True)
+    plugincheck.run(ctx, "C13", PLUGIN_THEOREMS, [], mon_c13_bind, module="C13p", nrandom=(40, 400), per_config=(1, 2), all_steps=True)
     corr, idx_corr, mons, mon_info = [], [], [], []
     for i, (c, o) in enumerate(zip(cases, obs)):
         ctx.count(c)
